@@ -101,8 +101,16 @@ def stack_consts():
     const("macBits", bits[_one(r"pub type Mac = (u\d+);", src, "type Mac", p)])
     _one(r"mtu: mtu\.unwrap_or\(Mtu::(MAX)\),", src, "default MTU", p)
     out.append("def mtuDefault : Nat := 2 ^ mtuBits - 1")
-    const("throughputMsFactor", _int(_one(r"let ms = delivery\.message\.len\(\) as u64 \* (\w+) / throughput\.0;", src, "throughput wait", p)))
+    # transmission time: len * 10^9 / thr + carry nanoseconds, slept in whole milliseconds,
+    # remainder carried to the next frame
+    const("txNsPerSec", _int(_one(r"let ns = delivery\.message\.len\(\) as u128 \* (\w+) / throughput\.0 as u128\s*\+ \*carry as u128;", src, "throughput transmission time", p)))
+    ns_per_ms = _int(_one(r"\*carry = \(ns % (\w+)\) as u64;", src, "throughput carry", p))
+    if _int(_one(r"\(ns / (\w+)\) as u64", src, "throughput milliseconds", p)) != ns_per_ms:
+        raise ExtractError("throughput wait: divisor of the sleep and modulus of the carry differ")
+    const("txNsPerMs", ns_per_ms)
     _one(r"sleep\(Duration::from_(millis)\(ms\)\)\.await;", src, "throughput wait unit", p)
+    _one(r"if throughput\.0 > 0 \{\s*self\.throughput_permit\.(notified)\(\)\.await;", src, "permit taken before the transmission", p)
+    _one(r"sleep\(Duration::from_millis\(ms\)\)\.await;\s*self\.throughput_permit\.(notify_one)\(\);", src, "permit released after the transmission", p)
     p = os.path.join(CORE, "protocols", "pci", "pci_session.rs")
     _one(r"if message\.len\(\) (>) self\.network\.mtu as usize \{\s*return Err\(SendError::Mtu\(self\.network\.mtu\)\);", strip_comments(read(p)), "send_pci MTU check", p)
     return out
